@@ -27,6 +27,9 @@ RULES = {
     'C11.h': 'the loader keeps every key record it reads: inside its record loop the only conditions that decide whether the entry is '
              'inserted are the deleted-version marker and the end-of-file test of a read — a size / bounds test that skips a record drops a '
              'previously persisted key (its old value becomes unreachable too)',
+    'C11.i': 'a space-reclaiming snapshot rewrites both data files from the selected entries and deletes the old files: its selection is '
+             'total — every value the selection predicate can return is `true` or the reclaim flag itself; an entry the predicate can refuse '
+             'while reclaiming is in neither new file and its old value is gone',
 }
 
 
@@ -39,15 +42,16 @@ def run(ck, m):
     from props import C06
     ck.rule('C11.g', 'the addresses the in-place key update writes at are right: the key-file size is measured after the reclaiming rename '
                      '(C06.g), the loader advances its running offset for every record (C06.h), the writer records an offset before it '
-                     'advances it (C06.i)')
+                     'advances it (C06.i), an appended key record is remembered where it was appended (C06.o)')
     tmp = report.Check('C06', 'quick', 0)
     try:
         C06.offsets_rules(tmp, m)
+        C06.appended_key_remembered_where_appended(tmp, m)
     except Exception as e:      # fail closed
         ck.undecided('C11.g', 'offsets', 'rules', 'C06.g-i could not be evaluated: %s' % e)
     n = 0
     for o in tmp.obs:
-        if o['rule'] in ('C06.g', 'C06.h', 'C06.i'):
+        if o['rule'] in ('C06.g', 'C06.h', 'C06.i', 'C06.o'):
             n += 1
             parts = o['key'].split(':', 2)
             ck.ob('C11.g', parts[1], parts[2] if len(parts) > 2 else 'rule', o['verdict'] == 'discharged', o['what'], o['loc'], verdict=o['verdict'])
@@ -294,6 +298,42 @@ def _run(ck, m):
           'next start panic with UnexpectedEof while it loads the databases — none of them is available any more' % exact, exact[0] if exact else '')
     ck.floor('C11.f', nread, 8, 'read calls in the persistence modules')
     loader_keeps_every_record(ck, m)
+    reclaim_selects_every_entry(ck, m)
+
+
+def reclaim_selects_every_entry(ck, m):
+    """C11.i — see RULES"""
+    P = m.prog
+    sel = [b for b in P.user_bodies() if b.kind in ('fn', 'method') and b.locals[0].startswith('std::vec::Vec<(std::string::String, nundb::bo::Value)>')
+           and 'bool' in b.locals[1:b.argc + 1]]
+    n = 0
+    for sb in sel:
+        flag = [i for i in range(1, sb.argc + 1) if sb.locals[i] == 'bool']
+        for k, cb in P.bodies.items():
+            if not k.startswith(sb.id + '::{closure') or cb.promoted or cb.locals[0] != 'bool':
+                continue
+            n += 1
+            bad = []
+            for r in core.place_origins(cb, {'l': 0}):
+                if r[0] == 'const':
+                    if const_val(r) is not True:
+                        bad.append('the constant %s' % const_val(r))
+                elif r[0] == 'capture':
+                    # the captured reclaim flag: the closure's environment operand at that index comes from the bool parameter
+                    site = P.closure_sites().get(cb.id)
+                    okc = False
+                    if site is not None and r[1] < len(site[3]):
+                        okc = any(r2[0] == 'param' and r2[1] in flag for r2 in origins(site[0], site[3][r[1]]))
+                    if not okc:
+                        bad.append('a captured value that is not the reclaim flag')
+                else:
+                    bad.append('a computed value (%s)' % r[0])
+            ck.ob('C11.i', short(sb.id), 'reclaim-selection-total', not bad,
+                  'the selection predicate returns `true` or the reclaim flag: with reclaim every entry is selected' if not bad else
+                  'the selection predicate of the snapshot can return %s: while reclaiming, an entry it refuses (a key waiting for the arbiter, …) is '
+                  'written to neither rewritten file, the old value file is deleted and the backup removed — a previously persisted key is gone '
+                  'after the next restart' % sorted(set(bad)), '%s:%s' % (cb.file, cb.line))
+    ck.floor('C11.i', n, 1, 'selection predicates of the snapshot (entry filter with a reclaim flag)')
 
 
 def loader_keeps_every_record(ck, m):
